@@ -256,48 +256,11 @@ def run(repo, rep):
         rep.check('force_break=bool(%s)' % tc in txt or 'has_comment = bool(%s)' % tc in txt, 'C10.d',
                   '%s:notice-forces-break' % f.qualname, f.where, 'a trailing comment forces the container to break',
                   '%s no longer forces a break when a trailing comment / truncation notice is present' % f.name)
-    ci = repo.cls('prettyprinter', 'PrettyContext')
-    for mname in ('nested_call', 'use_multiline_strategy', 'assoc'):
-        meth = ci.methods.get(mname)
-        if meth is None:
-            continue
-        n += 1
-        ok = not any(isinstance(k, ast.keyword) and k.arg == ATTR for c in ast.walk(meth.node)
-                     if isinstance(c, ast.Call) and call_name(c) == 'self._replace' for k in c.keywords)
-        # derived through _replace (which copies every slot), or an explicit constructor call that passes the setting on
-        via_replace = any(isinstance(c, ast.Call) and call_name(c) == 'self._replace' for c in ast.walk(meth.node))
-        ctor = [c for c in ast.walk(meth.node) if isinstance(c, ast.Call) and call_name(c) in (ci.name, 'type(self)')]
-        passes = all(any(k.arg == ATTR and src(k.value) == 'self.' + ATTR for k in c.keywords) for c in ctor)
-        rep.check(ok and (via_replace or bool(ctor)) and passes, 'C10.d', 'context.%s:keeps-setting' % mname, meth.where,
-                  'derived contexts keep max_seq_len',
-                  '%s builds the derived context without carrying max_seq_len over (%s): nested containers fall back to the '
-                  'constructor default' % (mname, [src(c)[:80] for c in ctor] or 'override in _replace'), nontrivial=True)
-    rp = ci.methods.get('_replace')
-    n += 1
-    ok = False
-    if rp is not None:
-        slots = []
-        for st_ in ci.node.body:
-            if isinstance(st_, ast.Assign) and src(st_.targets[0]) == '__slots__':
-                slots = [e.value for e in ast.walk(st_.value) if isinstance(e, ast.Constant)]
-        for dc in ast.walk(rp.node):
-            if isinstance(dc, ast.DictComp) and len(dc.generators) == 1 and isinstance(dc.generators[0].target, ast.Name):
-                var = dc.generators[0].target.id
-                it = src(dc.generators[0].iter)
-                it_def = [src(a.value) for a in ast.walk(rp.node) if isinstance(a, ast.Assign) and src(a.targets[0]) == it]
-                over_slots = it in ('type(self).__slots__', 'self.__slots__') or \
-                    any(d in ('type(self).__slots__', 'self.__slots__') for d in it_def)
-                copies = isinstance(dc.value, ast.IfExp) and 'getattr(self, %s)' % var in (src(dc.value.body), src(dc.value.orelse))
-                ok = over_slots and copies and src(dc.key) == var and ATTR in slots
-    rep.check(ok, 'C10.d', 'context._replace:copies-every-slot', rp.where if rp else ci.where,
-              '_replace copies every slot that is not overridden (max_seq_len is a slot)',
-              '_replace no longer copies all slots from self / max_seq_len is no longer a slot', nontrivial=True)
-    init = ci.methods.get('__init__')
-    st = [s for s in ast.walk(init.node) if isinstance(s, ast.Assign) and src(s.targets[0]) == 'self.' + ATTR]
-    n += 1
-    rep.check(len(st) == 1 and src(st[0].value) == ATTR, 'C10.d', 'context.__init__:stores-setting', init.where,
-              'context stores the setting it is given', 'constructor stores %s' % [src(s.value) for s in st])
-    rep.floor('C10.d', n, 9)
+    # every derived context keeps the setting, the constructor stores it (semantic model of the context class)
+    from . import ctxmodel
+    n += ctxmodel.report(repo, rep, 'C10.d', lambda k: 'max_seq_len' in k or k.endswith(':returns-new-context'),
+                         'nested containers would not see the configured max_seq_len')
+    rep.floor('C10.d', n, 12)
 
     # ---------------------------------------------------------------- C10.e coverage
     n = 0
